@@ -229,10 +229,13 @@ Unord(v) ==
     [] OTHER -> [v EXCEPT !.x = [i \in 1..Len(v.x) |-> Unord(v.x[i])],
                           !.y = [i \in 1..Len(v.y) |-> Unord(v.y[i])]]
 
-RECURSIVE Depth(_)
-Depth(v) == LET cs == ChildSeq(v)    \* a leaf has depth 1, a container (even an empty one) at least 2
-            IN IF IsLeafLike(v) \/ v.k = "error" THEN 1
-               ELSE 1 + Max({1} \cup {Depth(cs[i]) : i \in 1..Len(cs)})
+\* nesting level in the universes below: a scalar / opaque leaf is 1, a container (even an empty
+\* one, and a frozenset too) is one more than its deepest child
+RECURSIVE Level(_)
+Level(v) ==
+  CASE v.k \in {"leaf", "oleaf", "error"} -> 1
+    [] v.k \in {"set", "fset"} -> 1 + Max({1} \cup {Level(c) : c \in v.x})
+    [] OTHER -> 1 + Max({1} \cup {Level(v.x[i]) : i \in 1..Len(v.x)} \cup {Level(v.y[i]) : i \in 1..Len(v.y)})
 
 (***************************************************************************)
 (* JSON <-> trees.  ToJson writes sets as arrays; FromJ turns the arrays   *)
